@@ -1,8 +1,8 @@
 /-
-Skiplist, single-level fragment: `skiplist_notify_add` / `skiplist_notify_del` against the
+Skiplist: `skiplist_notify_add` / `skiplist_notify_del` against the
 dictionary (global list = the header's list; per-key lists live on the entry nodes).
 -/
-import QbVerif.Lemmas.SlUpd
+import QbVerif.Lemmas.SlmUpd
 
 namespace QbVerif.Skiplist
 open QbVerif.Map
@@ -11,32 +11,50 @@ set_option linter.unusedSimpArgs false
 /-- rewriting the header's notifier list -/
 theorem update_header {s ids es g} (h : Inv s ids es g) {hn : Node} (hh : s.nodes s.header = some hn) (l : List Notifier) :
     Inv (s.setNode s.header { hn with notifs := l }) ids es l := by
-  obtain ⟨hf, ha, hv, hh1, hh2⟩ := h.hdr
+  obtain ⟨hf, ha, hv, hrc, hh1, hh2⟩ := h.hdr
   rw [hh] at hh1
-  have hne : hn = ⟨none, hv, LEVEL_MAX + 1, 1, hf, g⟩ := Option.some.inj hh1
+  have hne : hn = ⟨none, hv, LEVEL_MAX + 1, hrc, hf, g⟩ := Option.some.inj hh1
   subst hne
-  have hnodes : ∀ j, j ≠ s.header → (s.setNode s.header ⟨none, hv, LEVEL_MAX + 1, 1, hf, l⟩).nodes j = s.nodes j := by
+  have hnodes : ∀ j, j ≠ s.header → (s.setNode s.header ⟨none, hv, LEVEL_MAX + 1, hrc, hf, l⟩).nodes j = s.nodes j := by
     intro j hj; simp [SL.setNode, upd, hj]
-  have hfw : ∀ j, fwdOf (s.setNode s.header ⟨none, hv, LEVEL_MAX + 1, 1, hf, l⟩) j = fwdOf s j := by
+  have hfw : ∀ j, fwdOf (s.setNode s.header ⟨none, hv, LEVEL_MAX + 1, hrc, hf, l⟩) j = fwdOf s j := by
     intro j
     by_cases hj : j = s.header
     · subst hj; simp [fwdOf, SL.setNode, upd, hh]
     · simp only [fwdOf, hnodes j hj]
-  have hnext : ∀ j, next0 (s.setNode s.header ⟨none, hv, LEVEL_MAX + 1, 1, hf, l⟩) j = next0 s j := by
+  have hnext : ∀ j, next0 (s.setNode s.header ⟨none, hv, LEVEL_MAX + 1, hrc, hf, l⟩) j = next0 s j := by
     intro j
     by_cases hj : j = s.header
     · subst hj; simp [next0, SL.setNode, upd, hh]
     · exact next0_eq (hnodes j hj) rfl
-  refine ⟨⟨hf, ha, hv, by simp [SL.setNode, upd], hh2⟩, ?_, h.nodup, ?_, h.freshN, ?_, h.sorted, h.lv, h.len, h.iters, h.ok⟩
+  have hnL : ∀ l' j, nextL (s.setNode s.header ⟨none, hv, LEVEL_MAX + 1, hrc, hf, l⟩) l' j = nextL s l' j := by
+    intro l' j
+    by_cases hj : j = s.header
+    · subst hj; simp [nextL, SL.setNode, upd, hh]
+    · simp only [nextL, hnodes j hj]; rfl
+  have hlvO : ∀ j, lvOf (s.setNode s.header ⟨none, hv, LEVEL_MAX + 1, hrc, hf, l⟩) j = lvOf s j := by
+    intro j
+    by_cases hj : j = s.header
+    · subst hj; simp [lvOf, SL.setNode, upd, hh]
+    · simp only [lvOf, hnodes j hj]
+  obtain ⟨hab, hhl⟩ := h.levels_transfer hnL hlvO hfw rfl rfl rfl
+  refine ⟨⟨hf, ha, hv, hrc, by simp [SL.setNode, upd], hh2⟩, ?_, h.nodup, ?_, h.freshN, ?_, h.sorted, h.lv, h.len, ?_, h.pos,
+    h.ikeys, h.ok, hab, hhl⟩
   · show Chain _ s.header ids es
     refine Chain.frame2 h.chain (fun j _ => hnext j) ?_
     intro j hj e hok
     have hjh : j ≠ s.header := fun he => (List.nodup_cons.1 h.nodup).1 (he ▸ hj)
-    exact hok.frame (hnodes j hjh) (by obtain ⟨f0, a0, h1, h2⟩ := hok; simp [fwdOf, h1, SL.setNode, h2])
+    exact hok.frame (hnodes j hjh) (by obtain ⟨_, rc0, f0, a0, _, _, _, h1, h2⟩ := hok; simp [fwdOf, h1, SL.setNode, h2])
   · intro a ha' b hb hab
     rw [hfw, hfw] at hab
     exact h.inj a ha' b hb hab
   · intro j hj; rw [hfw]; exact h.freshF j hj
+  · intro j hj
+    show rcOf _ j = 1 + parked s.iters j
+    rw [← h.rc j hj]
+    by_cases hjh : j = s.header
+    · subst hjh; simp [rcOf, SL.setNode, upd, hh]
+    · simp only [rcOf, hnodes j hjh]
 
 /-- the outcome of `nadd` in the dictionary (entry-attached flavour), as a function of the lists -/
 def naddSpec (es : List Entry) (g : List Notifier) (key : Option Key) (events id : Nat) :
@@ -73,16 +91,16 @@ def ndelSpec (es : List Entry) (g : List Notifier) (key : Option Key) (events : 
 theorem nadd_eq {s ids es g} (h : Inv s ids es g) (key : Option Key) (events id : Nat) :
     ∃ s' rc, s.notifyAdd key events id = .ok (s', rc) ∧
       Inv s' ids (naddSpec es g key events id).1 (naddSpec es g key events id).2.1 ∧
-      rc.isSome = (naddSpec es g key events id).2.2.isSome := by
-  obtain ⟨hf, ha, hv, hh1, hh2⟩ := h.hdr
+      rc.isSome = (naddSpec es g key events id).2.2.isSome ∧ s'.iters = s.iters ∧ (∀ j, keyOf s' j = keyOf s j) := by
+  obtain ⟨hf, ha, hv, hrc, hh1, hh2⟩ := h.hdr
   cases key with
   | none =>
     cases hna : notifierAdd g events id with
     | none =>
-      refine ⟨s, some .eexist, ?_, by simpa [naddSpec, hna] using h, by simp [naddSpec, hna]⟩
+      refine ⟨s, some .eexist, ?_, by simpa [naddSpec, hna] using h, by simp [naddSpec, hna], rfl, fun _ => rfl⟩
       simp [SL.notifyAdd, SL.node, hh1, hna, bind, Except.bind]
     | some l =>
-      refine ⟨_, none, ?_, by simpa [naddSpec, hna] using update_header h hh1 l, by simp [naddSpec, hna]⟩
+      refine ⟨s.setNode s.header ⟨none, hv, LEVEL_MAX + 1, hrc, hf, l⟩, none, ?_, by simpa [naddSpec, hna] using update_header h hh1 l, by simp [naddSpec, hna], rfl, fun j => by by_cases hj : j = s.header <;> simp [keyOf, SL.setNode, upd, hj, hh1]⟩
       simp [SL.notifyAdd, SL.node, hh1, hna, bind, Except.bind]
   | some k =>
     by_cases hfree : (events &&& EV_FREE != 0) = true
@@ -91,17 +109,17 @@ theorem nadd_eq {s ids es g} (h : Inv s ids es g) (key : Option Key) (events id 
     · have hfree' : (events &&& EV_FREE != 0) = false := by simpa using hfree
       cases hfe : findEntry es k with
       | none =>
-        refine ⟨s, some .einval, ?_, by simpa [naddSpec, hfree', hfe] using h, by simp [naddSpec, hfree', hfe]⟩
+        refine ⟨s, some .einval, ?_, by simpa [naddSpec, hfree', hfe] using h, by simp [naddSpec, hfree', hfe], rfl, fun _ => rfl⟩
         simp [SL.notifyAdd, hfree', (lookup_eq h k).2 hfe, bind, Except.bind]
       | some e =>
-        obtain ⟨i, hl, hso, hk, hi, ⟨f, a, hn, _⟩⟩ := (lookup_eq h k).1 e hfe
+        obtain ⟨i, hl, hso, hk, hi, ⟨lv, rc, f, a, hrc1, hlv1, hlv2, hn, _⟩⟩ := (lookup_eq h k).1 e hfe
         cases hna : notifierAdd e.notifs events id with
         | none =>
-          refine ⟨s, some .eexist, ?_, by simpa [naddSpec, hfree', hfe, hna] using h, by simp [naddSpec, hfree', hfe, hna]⟩
+          refine ⟨s, some .eexist, ?_, by simpa [naddSpec, hfree', hfe, hna] using h, by simp [naddSpec, hfree', hfe, hna], rfl, fun _ => rfl⟩
           simp [SL.notifyAdd, hfree', hl, SL.node, hn, hna, bind, Except.bind]
         | some l =>
-          have := update_node h hso hk hi hn e.val l
-          refine ⟨s.setNode i ⟨some k, e.val, 1, 1, f, l⟩, none, ?_, ?_, by simp [naddSpec, hfree', hfe, hna]⟩
+          have := update_node h hso hk hi hrc1 hlv1 hlv2 hn e.val l
+          refine ⟨s.setNode i ⟨some k, e.val, lv, rc, f, l⟩, none, ?_, ?_, by simp [naddSpec, hfree', hfe, hna], rfl, fun j => by by_cases hj : j = i <;> simp [keyOf, SL.setNode, upd, hj, hn, hk]⟩
           · simp [SL.notifyAdd, hfree', hl, SL.node, hn, hna, bind, Except.bind, hk]
           · cases e
             simp only at hk
@@ -111,31 +129,31 @@ theorem nadd_eq {s ids es g} (h : Inv s ids es g) (key : Option Key) (events id 
 theorem ndel_eq {s ids es g} (h : Inv s ids es g) (key : Option Key) (events : Nat) (id : Option Nat) :
     ∃ s' rc, s.notifyDel key events id = .ok (s', rc) ∧
       Inv s' ids (ndelSpec es g key events id).1 (ndelSpec es g key events id).2.1 ∧
-      rc.isSome = (ndelSpec es g key events id).2.2.isSome := by
-  obtain ⟨hf, ha, hv, hh1, hh2⟩ := h.hdr
+      rc.isSome = (ndelSpec es g key events id).2.2.isSome ∧ s'.iters = s.iters ∧ (∀ j, keyOf s' j = keyOf s j) := by
+  obtain ⟨hf, ha, hv, hrc, hh1, hh2⟩ := h.hdr
   cases key with
   | none =>
     cases hna : notifierDel g events id with
     | none =>
-      refine ⟨s, some .enoent, ?_, by simpa [ndelSpec, hna] using h, by simp [ndelSpec, hna]⟩
+      refine ⟨s, some .enoent, ?_, by simpa [ndelSpec, hna] using h, by simp [ndelSpec, hna], rfl, fun _ => rfl⟩
       simp [SL.notifyDel, SL.node, hh1, hna, bind, Except.bind]
     | some l =>
-      refine ⟨_, none, ?_, by simpa [ndelSpec, hna] using update_header h hh1 l, by simp [ndelSpec, hna]⟩
+      refine ⟨s.setNode s.header ⟨none, hv, LEVEL_MAX + 1, hrc, hf, l⟩, none, ?_, by simpa [ndelSpec, hna] using update_header h hh1 l, by simp [ndelSpec, hna], rfl, fun j => by by_cases hj : j = s.header <;> simp [keyOf, SL.setNode, upd, hj, hh1]⟩
       simp [SL.notifyDel, SL.node, hh1, hna, bind, Except.bind]
   | some k =>
     cases hfe : findEntry es k with
     | none =>
-      refine ⟨s, some .enoent, ?_, by simpa [ndelSpec, hfe] using h, by simp [ndelSpec, hfe]⟩
+      refine ⟨s, some .enoent, ?_, by simpa [ndelSpec, hfe] using h, by simp [ndelSpec, hfe], rfl, fun _ => rfl⟩
       simp [SL.notifyDel, (lookup_eq h k).2 hfe, bind, Except.bind]
     | some e =>
-      obtain ⟨i, hl, hso, hk, hi, ⟨f, a, hn, _⟩⟩ := (lookup_eq h k).1 e hfe
+      obtain ⟨i, hl, hso, hk, hi, ⟨lv, rc, f, a, hrc1, hlv1, hlv2, hn, _⟩⟩ := (lookup_eq h k).1 e hfe
       cases hna : notifierDel e.notifs events id with
       | none =>
-        refine ⟨s, some .enoent, ?_, by simpa [ndelSpec, hfe, hna] using h, by simp [ndelSpec, hfe, hna]⟩
+        refine ⟨s, some .enoent, ?_, by simpa [ndelSpec, hfe, hna] using h, by simp [ndelSpec, hfe, hna], rfl, fun _ => rfl⟩
         simp [SL.notifyDel, hl, SL.node, hn, hna, bind, Except.bind]
       | some l =>
-        have := update_node h hso hk hi hn e.val l
-        refine ⟨s.setNode i ⟨some k, e.val, 1, 1, f, l⟩, none, ?_, ?_, by simp [ndelSpec, hfe, hna]⟩
+        have := update_node h hso hk hi hrc1 hlv1 hlv2 hn e.val l
+        refine ⟨s.setNode i ⟨some k, e.val, lv, rc, f, l⟩, none, ?_, ?_, by simp [ndelSpec, hfe, hna], rfl, fun j => by by_cases hj : j = i <;> simp [keyOf, SL.setNode, upd, hj, hn, hk]⟩
         · simp [SL.notifyDel, hl, SL.node, hn, hna, bind, Except.bind, hk]
         · cases e
           simp only at hk
